@@ -11,5 +11,5 @@ assert n==1, 'pattern not found'
 open(p,'w').write(s2)
 PY
 [ $? -eq 0 ] || { rm -rf $d; exit 9; }
-VF_REPO=$d "$(dirname "$0")/../bin/check" $pid | grep -E "VIOLATION|obligation:|ENGINE|UNDECIDED|^C[0-9]+:" | head -${5:-8}
+VF_EVIDENCE_DIR=$d/evidence VF_REPLAY_DIR=$d/replays VF_REPO=$d "$(dirname "$0")/../bin/check" $pid | grep -E "VIOLATION|obligation:|ENGINE|UNDECIDED|^C[0-9]+:" | head -${5:-8}
 rm -rf $d
